@@ -72,14 +72,15 @@ def strip(v):
   if v[0] in (8, 9): return [v[0], v[1], [[wire_key(k), strip(x)] for k, x in v[2]]] + v[3:]
   return v
 
-CLASS_FIELDS = {'A': ['x', 'y'], 'A1': ['x', 'y'], 'A2': ['x', 'y', 'z'], 'Bb': ['x', 'y'], 'Zq': ['q', 'p'], 'Nc': ['p']}
-OPT_IN = {'A', 'A1', 'A2', 'Bb', 'Zq'}
+CLASS_FIELDS = {'A': ['x', 'y'], 'A1': ['x', 'y'], 'A2': ['x', 'y', 'z'], 'Bb': ['x', 'y'], 'Zq': ['q', 'p'], 'Nc': ['p'], 'Wr': ['x', 'y'], 'fn': ['x', 'y']}
+OPT_IN = {'A', 'A1', 'A2', 'Bb', 'Zq', 'fn'}
 _CLS = {}
 _UID = {}
 def classes():
   """pg.Object classes used by the generator: a base class, a subclass without and one with extra fields,
-  an unrelated class with the same fields, a class whose fields are declared in non-alphabetical order, and a
-  class that does not opt into symbolic comparison."""
+  an unrelated class with the same fields, a class whose fields are declared in non-alphabetical order, a
+  class that does not opt into symbolic comparison, a pg.symbolize wrapper class, a pg.functor class, and two more
+  classes whose __qualname__ is also 'A'."""
   if len(_CLS) > 2: return _CLS
   import pyglove as pg
   ns = {}
@@ -101,6 +102,13 @@ class Zq(pg.Object):
 class Nc(pg.Object):
   use_symbolic_comparison = False
   p: pg.typing.Any()
+@pg.symbolize
+class Wr:                      # a plain class symbolized into a wrapper class (does not opt into symbolic comparison)
+  def __init__(self, x, y):
+    self.x = x; self.y = y
+@pg.functor()
+def fn(x, y):                  # a functor class (opts in)
+  return (x, y)
 '''
   exec(compile(src, 'c06_classes', 'exec'), ns)
   import types
@@ -115,7 +123,7 @@ class Nc(pg.Object):
   _UID.update({id(c): i for i, c in enumerate(same_name)})
   for n in CLASS_FIELDS:
     c = ns[n]
-    assert c.__qualname__ == n and [str(k) for k in c.__schema__.keys()] == CLASS_FIELDS[n], (n, c.__qualname__, list(c.__schema__.keys()))
+    assert c.__qualname__ == n and [str(k) for k in c.__schema__.keys()] == CLASS_FIELDS[n] and bool(c.use_symbolic_comparison) == (n in OPT_IN), (n, c.__qualname__, list(c.__schema__.keys()))
     _CLS[n] = c
   return _CLS
 
@@ -261,7 +269,7 @@ class Gen:
     if k < .82:
       sym = under_sym or r.random() < .6
       return Dv(sym, [(kk, self.value(d - 1, sym)) for kk in self.keys(r.choice([0, 1, 2, 2, 3, 3]))])
-    name = r.choice(['A', 'A', 'A1', 'A2', 'Bb', 'Zq', 'Nc'])
+    name = r.choice(['A', 'A', 'A1', 'A2', 'Bb', 'Zq', 'Nc', 'Wr', 'fn'])
     fs = CLASS_FIELDS[name]
     return Ov(name, [(f, MISSING if r.random() < .08 else self.value(d - 1, True)) for f in fs])
 
@@ -434,6 +442,7 @@ def pool():
        Ov('A2', [('x', Iv(1)), ('y', Iv(2)), ('z', Iv(3))]), Ov('Bb', [('x', Iv(1)), ('y', Iv(2))]), Ov('Zq', [('q', Iv(1)), ('p', Iv(2))]),
        Ov('Zq', [('q', Iv(2)), ('p', Iv(1))]), Ov('Nc', [('p', Iv(1))]), Ov('A', [('x', Iv(1))]), Ov('A', [('x', NONE), ('y', NONE)]),
        Ov('A', [('x', Dv(1, [a1, b2])), ('y', Lv(1, [Iv(1)]))]), Ov('A', [('x', Dv(1, [b2, a1])), ('y', Lv(1, [B(True)]))]),
+       Ov('Wr', [('x', Iv(1)), ('y', Iv(2))]), Ov('fn', [('x', Iv(1)), ('y', Iv(2))]), Ov('fn', [('x', Iv(1))]),
        Ov('A', [('x', Iv(1)), ('y', Iv(2))], uid=1), Ov('A', [('x', Iv(0)), ('y', Iv(2))], uid=2)]
   return [canon(v) for v in P]
 
